@@ -14,6 +14,7 @@ from __future__ import annotations
 import re
 from collections.abc import Callable, Generator, Iterable
 from contextlib import contextmanager
+from fractions import Fraction
 from functools import partial
 from locale import LC_NUMERIC, getlocale, setlocale
 from typing import (
@@ -107,6 +108,14 @@ def pretty_fmt_exponent(num: Number) -> str:
     return ret
 
 
+def _plain_number(value: Any) -> Any:
+    """Fraction does not support the 'n' presentation type: hand the number
+    formatter the int (or float) it is equal (or closest) to."""
+    if isinstance(value, Fraction):
+        return value.numerator if value.denominator == 1 else float(value)
+    return value
+
+
 def join_u(fmt: str, iterable: Iterable[Any]) -> str:
     """Join an iterable with the format specified in fmt.
 
@@ -194,9 +203,9 @@ def formatter(
     """
 
     if as_ratio:
-        fun = lambda x: exp_call(abs(x))
+        fun = lambda x: exp_call(_plain_number(abs(x)))
     else:
-        fun = exp_call
+        fun = lambda x: exp_call(_plain_number(x))
 
     pos_terms: list[str] = []
     for key, value in numerator:
